@@ -1096,7 +1096,7 @@ impl<RS> Ods<RS> {
         //# C07,C08.with_header_row_returns_self
         *final(r) == *final(self),
 //@@ end
-//@@ fn src/xls.rs "Reader<RS> for Xls<RS>::worksheet_range" props=C08,C07 ret=r
+//@@ fn src/xls.rs "Reader<RS> for Xls<RS>::worksheet_range" props=C08 ret=r
 //@@ sig
     ensures
         //# C07.eager_read_is_pure
@@ -1128,7 +1128,7 @@ impl<RS> Ods<RS> {
         //# C07,C08.with_header_row_returns_self
         *final(r) == *final(self),
 //@@ end
-//@@ fn src/ods.rs "Reader<RS> for Ods<RS>::worksheet_range" props=C08,C07 ret=r
+//@@ fn src/ods.rs "Reader<RS> for Ods<RS>::worksheet_range" props=C08 ret=r
 //@@ sig
     ensures
         //# C07.eager_read_is_pure
